@@ -230,7 +230,7 @@ def setAttr (s : OStore) (v : OView) (name : Bytes) (f : ONode → ONode) : OSto
 
 /-- Truncate (the modification time is not touched) -/
 def truncate (s : OStore) (v : OView) (name : Bytes) (size : Int) : OStore × Out :=
-  if size < 0 then (s, .err .EINVAL) else       -- before the path is looked at
+  if size < 0 || size > maxFileSize then (s, .err .EINVAL) else       -- before the path is looked at (2 GiB limit: the content is one byte slice)
   match s.at (absOf v name) with
   | none => (s, .err .ENOENT)
   | some c =>
@@ -405,6 +405,7 @@ def fileStep (s : OStore) (v : OView) (h : Handle) (ap : Bytes) (op : FOp) : OSt
     if h.pos < 0 then (s, v, h, .panic) else
     -- O_APPEND: every write lands at the current end of the file
     let pos := if h.om &&& omAppend != 0 then n.data.length else h.pos.toNat
+    if pos + b.length > maxFileSize then (s, v, h, .err .EINVAL) else     -- the file would grow beyond the maximum size
     -- an offset beyond the end: the gap is filled with zeros
     let d1 := if pos > n.data.length then n.data ++ List.replicate (pos - n.data.length) 0 else n.data
     let d' := d1.take pos ++ b ++ d1.drop (pos + b.length)
@@ -414,6 +415,7 @@ def fileStep (s : OStore) (v : OView) (h : Handle) (ap : Bytes) (op : FOp) : OSt
     if h.om &&& omWrite == 0 then (s, v, h, .err .EBADF) else
     if b.isEmpty then (s, v, h, .ok (.num 0 [])) else
     let pos := off.toNat
+    if pos + b.length > maxFileSize then (s, v, h, .err .EINVAL) else
     let d1 := if pos + b.length > n.data.length then n.data ++ List.replicate (pos + b.length - n.data.length) 0 else n.data
     let d' := d1.take pos ++ b ++ d1.drop (pos + b.length)
     (s.set i { n with data := d', mtime := none }, v, h, .ok (.num b.length []))
@@ -421,18 +423,18 @@ def fileStep (s : OStore) (v : OView) (h : Handle) (ap : Bytes) (op : FOp) : OSt
     if n.isDir then (s, v, h, .ok (.num 0 [])) else
     let size : Int := n.data.length
     if whence == 0 then
-      if off < 0 then (s, v, h, .err .EINVAL) else (s, v, { h with pos := off }, .ok (.num off []))
+      if off < 0 || off > 9223372036854775807 then (s, v, h, .err .EINVAL) else (s, v, { h with pos := off }, .ok (.num off []))
     else if whence == 1 then
-      if h.pos + off < 0 then (s, v, h, .err .EINVAL)
+      if h.pos + off < 0 || h.pos + off > 9223372036854775807 then (s, v, h, .err .EINVAL)    -- int64 wrap-around
       else (s, v, { h with pos := h.pos + off }, .ok (.num (h.pos + off) []))
     else if whence == 2 then
-      if size + off < 0 then (s, v, h, .err .EINVAL)
+      if size + off < 0 || size + off > 9223372036854775807 then (s, v, h, .err .EINVAL)
       else (s, v, { h with pos := size + off }, .ok (.num (size + off) []))
     else (s, v, h, .err .EINVAL)
   | .truncate size =>
     if n.isDir then (s, v, h, .err .EINVAL) else
     if h.om &&& omWrite == 0 then (s, v, h, .err .EINVAL) else
-    if size < 0 then (s, v, h, .err .EINVAL) else
+    if size < 0 || size > maxFileSize then (s, v, h, .err .EINVAL) else
     (s.set i { n with data := truncData n.data size.toNat, mtime := none }, v, h, .ok .unit)
   | .stat =>
     match fillStatO s i (base .linux h.name) with
